@@ -1960,7 +1960,7 @@ pub fn run_hosts<S: Send + 'static, R: Send + 'static>(
     }
     drop(tx);
     let mut res: Vec<Option<Result<R, String>>> = (0..n).map(|_| None).collect();
-    let deadline = std::time::Instant::now() + watchdog;
+    let deadline = std::time::Instant::now() + watchdog * crate::load_factor();
     let mut got = 0;
     while got < n {
         let left = deadline.saturating_duration_since(std::time::Instant::now());
